@@ -103,6 +103,30 @@ def splice(items, r, prob=0.15):
     return "".join(out), n
 
 
+STRAY = ["$", "@", "`", "\x0c", "\x0b", "\u00e9", "\x85", "\u2028", "\x1c", "\r"]
+
+
+def hostile(items, r):
+    """the same file with characters no token starts with dropped at a few token boundaries and inside comments
+    (form feed, vertical tab, U+0085, U+2028 ...: line ends for str.splitlines, nothing for C)"""
+    out = []
+    n = 0
+    for k, (t, c, lk) in enumerate(items):
+        if lk != "hdr" and c.startswith("comment") and r.random() < 0.5 and len(t) > 4:
+            j = r.randint(2, len(t) - 2)
+            if t[j - 1] != "\\" and "\n" not in t[j - 1:j + 1]:
+                t = t[:j] + r.choice(STRAY[3:9]) + t[j:]
+                n += 1
+        out.append((t, c, lk))
+        if lk != "hdr" and c != "ws:nl" and not c.startswith("comment:line") and r.random() < 0.02 and t[-1:] != "\\":
+            out.append((r.choice(STRAY), "bad", lk))
+            n += 1
+    if not n:
+        k = next((i for i, x in enumerate(out) if x[2] != "hdr"), 0)
+        out.insert(k, ("/* page\x0cbreak */\n", "comment:block", "comment"))
+    return out
+
+
 def strip_cols(o):
     if o[0] != "ok":
         return o
@@ -112,6 +136,7 @@ def strip_cols(o):
 def run_pairs(spec):
     sh = Shard(max_per_sig=3)
     r = random.Random("c12/%s/%d" % (spec["seed"], spec["shard"]))
+    nh = 0
     for p, tag in relwork.corpus(spec, nvar=2, force=("V31", "V31b")):
         items = flat(p)
         src = p.text()
@@ -141,6 +166,29 @@ def run_pairs(spec):
                 if r1.outcome != "ok" or t1 != base:
                     sh.violation("splice_changes_tokens", (tag.split(":")[1], _first_tok_diff(base, t1)),
                                  {"mode": "lexpair", "name": p.name, "a": src, "b": v}, {"first_difference": _first_tok_diff(base, t1)})
+        # the same two relations with stray characters around: before a respelt punctuator, right before a splice
+        nh += 1
+        if nh % 2 == 0:
+            items2 = hostile(items, r)
+            src2 = "".join(t for t, _, _ in items2)
+            r0, base2 = toks(p.name, src2)
+            if r0.outcome == "ok":
+                for rep in range(3):
+                    if rep < 2:
+                        v, n = respell(items2, r, prob=r.choice([0.5, 1.0]))
+                        rel = "respelling_changes_tokens"
+                    else:
+                        v, n = splice(items2, r, prob=0.5)
+                        rel = "splice_changes_tokens"
+                    if not n:
+                        continue
+                    r1, t1 = toks(p.name, v)
+                    sh.case("h\0" + src2 + "\0" + v)
+                    sh.count("c12.same_tokens_with_stray_characters_around")
+                    sh.tally("relations", "hostile_" + rel.split("_")[0])
+                    if r1.outcome != "ok" or t1 != base2:
+                        sh.violation(rel, ("stray", _first_tok_diff(base2, t1)),
+                                     {"mode": "lexpair", "name": p.name, "a": src2, "b": v}, {"first_difference": _first_tok_diff(base2, t1)})
         # (c) whole pipeline, braces and brackets, columns ignored
         for rep in range(2):
             # sites followed by a tab on the same line would change an alignment: keep those lines untouched
